@@ -289,33 +289,34 @@ func (p *ParserZH) setStmtCurrentLine(s syntax.Statement, tk *syntax.Token) {
 
 // wrap 0x2250 InvalidSyntaxCurr - with current token's startIdx
 func (p *ParserZH) getInvalidSyntaxCurr() error {
-	startIdx := p.TokenP1.StartIdx
-	return zerr.InvalidSyntax(startIdx)
+	return zerr.InvalidSyntax(p.getCurrStartIdx())
 }
 
 func (p *ParserZH) getInvalidSyntaxPeek() error {
-	startIdx := p.TokenP1.StartIdx
-	if p.TokenP2 != nil {
-		startIdx = p.TokenP2.StartIdx
-	}
-
-	return zerr.InvalidSyntax(startIdx)
+	return zerr.InvalidSyntax(p.getPeekStartIdx())
 }
 
 func (p *ParserZH) getUnexpectedIndentPeek() error {
-	startIdx := p.TokenP1.StartIdx
-	if p.TokenP2 != nil {
-		startIdx = p.TokenP2.StartIdx
-	}
-
-	return zerr.UnexpectedIndent(startIdx)
+	return zerr.UnexpectedIndent(p.getPeekStartIdx())
 }
 
 func (p *ParserZH) getExprMustTypeIDPeek() error {
-	startIdx := p.TokenP1.StartIdx
-	if p.TokenP2 != nil {
-		startIdx = p.TokenP2.StartIdx
-	}
+	return zerr.ExprMustTypeID(p.getPeekStartIdx())
+}
 
-	return zerr.ExprMustTypeID(startIdx)
+// start index of current token - notice there's NO current token (TokenP1 = nil)
+// before the first token of the program is consumed
+func (p *ParserZH) getCurrStartIdx() int {
+	if p.TokenP1 != nil {
+		return p.TokenP1.StartIdx
+	}
+	return 0
+}
+
+// start index of peek token (or that of current token if there's no peek token)
+func (p *ParserZH) getPeekStartIdx() int {
+	if p.TokenP2 != nil {
+		return p.TokenP2.StartIdx
+	}
+	return p.getCurrStartIdx()
 }
